@@ -34,7 +34,7 @@ def _finding_of(oracle_msg, open_findings):
     return None
 
 
-def _shrink(mod, prop, case, rounds=12):
+def _shrink(mod, prop, case, rounds=12, open_findings=()):
     """greedy: replace the case by the first smaller candidate on which the oracle still fails"""
     if not hasattr(mod, "shrink_candidates"):
         return case
@@ -46,7 +46,8 @@ def _shrink(mod, prop, case, rounds=12):
         res = core.run_impl(prop, cands, what="oracle")
         nxt = None
         for c, r in zip(cands, res):
-            if r.get("oracle") and r["oracle"] != "timeout (possible non-termination)":
+            if r.get("oracle") and r["oracle"] != "timeout (possible non-termination)" \
+                    and not _finding_of(r["oracle"], open_findings):
                 nxt = c
                 break
         if nxt is None:
@@ -138,7 +139,7 @@ def run_check(prop, tier, seed):
     for c, msg, obs in oracle_fail[:200]:
         small = c
         if len(reported) < 3:
-            small = _shrink(mod, prop, c)
+            small = _shrink(mod, prop, c, open_findings=open_findings)
         k = json.dumps(mod.key(small) if hasattr(mod, "key") else small, sort_keys=True)
         if k in reported:
             continue
